@@ -291,9 +291,16 @@ def expr_ld(tier, seed):
                      cases_per_tu=q(tier, 1800, 18000))
 
 
+def form_sweep_runs(tier, seed):
+    """forms inside the order-pair sweep (orders up to 8, all placements)"""
+    return [RunSpec("arith", "Q", "plain", q(tier, 1680, 200000)),
+            RunSpec("arith", "d", "plain", q(tier, 3360, 400000)),
+            RunSpec("arith", "ld", "plain", q(tier, 1680, 200000))]
+
+
 def c06_runs(tier, seed):
     return expr_runs(tier, seed) + expr_deep(tier, seed) + expr_ld(
-        tier, seed) + high_runs(tier, seed) + [
+        tier, seed) + high_runs(tier, seed) + form_sweep_runs(tier, seed) + [
         RunSpec("pool", "Q", "plain", q(tier, 160, 5000)),
         RunSpec("pool", "d", "plain", q(tier, 320, 12000))]
 
@@ -311,10 +318,16 @@ reg(Spec(
          "factor splines) applied to the very same spline object. The pool "
          "machine (see C03) adds ScalarProduct and BilinearForm{X,Dx} over its "
          "objects in the middle of histories (moved-from, interval-free and "
-         "point-like objects included). " + HIGH_RULE + "Non-trivial: exact "
+         "point-like objects included). The order-pair sweep (drv_arith) "
+         "computes ScalarProduct (both argument orders), BilinearForm{X<1>,"
+         "Dx<1>}(a,b) and BilinearForm{X<2>,Dx<2>}(b,a) for every order pair "
+         "with max(order) in 5..8, all 12 placements, small and 65..130-point "
+         "grids. " + HIGH_RULE + "Non-trivial: exact "
          "value non-zero.",
     required=["bilinear", "bilinear:metamorphic",
               "bilinear:same-type-different-state", "forms:scalar-product",
+              "forms:sweep:scalar-product", "forms:sweep:orders:8,5",
+              "forms:sweep:orders:0,8", "forms:sweep:place:PARTIAL_L",
               "forms:bilinear-X-Dx", "place:forms:A_EMPTY",
               "bilinear:no-common-interval", "bilinear:parity:oddxodd",
               "bilinear:parity:evenxodd", "bilinear:parity:oddxeven",
@@ -334,7 +347,7 @@ reg(Spec(
 
 def c07_runs(tier, seed):
     return expr_runs(tier, seed) + expr_deep(tier, seed) + expr_ld(
-        tier, seed) + high_runs(tier, seed) + [
+        tier, seed) + high_runs(tier, seed) + form_sweep_runs(tier, seed) + [
         RunSpec("pool", "Q", "plain", q(tier, 160, 5000)),
         RunSpec("pool", "d", "plain", q(tier, 320, 12000))]
 
@@ -346,11 +359,15 @@ reg(Spec(
          "of the exact integral of ModelExpr(E)(a), 0 for interval-free a, "
          "== LinearForm{}(E*a) through the library; and for every bilinear "
          "case BilinearForm{E1,E2}(a,b) == LinearForm{}((E1*a)*(E2*b)) "
-         "exactly (Q). " + HIGH_RULE + "Non-trivial: exact value non-zero.",
+         "exactly (Q). The order-pair sweep (drv_arith) computes "
+         "LinearForm{X<2>} and LinearForm{} for every order 0..8 operand on "
+         "small and 65..130-point grids. " + HIGH_RULE +
+         "Non-trivial: exact value non-zero.",
     required=["linear", "linear:interval-free", "linear:outsize-parity:odd",
               "linear:outsize-parity:even", "linear:vs-apply",
               "bilinear:metamorphic", "forms:linear-X2",
-              "forms:linear-identity"] +
+              "forms:linear-identity", "forms:sweep:linear-X2",
+              "forms:sweep:linear-identity"] +
              ["linear:outsize:%d" % i for i in range(1, 9)],
     assumptions=[DYADIC, MODEL],
     evaluations=None,
